@@ -85,9 +85,14 @@ contract(FP, "ResolvedPos.shared_depth", {"self": "ResolvedPos", "pos": "int"}, 
 contract(FP, "ResolvedPos.same_parent", {"self": "ResolvedPos", "other": "ResolvedPos"}, returns="bool",
          ensures=["result == (rp_start(self, self.depth) == rp_start(other, other.depth))"], props=P9)
 
+abstract("rdepth", ["Node", "int"], "int")
+abstract("ridx", ["Node", "int", "int"], "int")
+# the shape resolve finds for (doc, pos) is given a name, so that callers can speak about it before resolving
+RSHAPE = ["result.depth == rdepth({d}, pos)", "all_(0, result.depth + 1, lambda k: rp_index(result, k) == ridx({d}, pos, k))"]
 contract(FP, "ResolvedPos.resolve", {"doc": "Node", "pos": "int"}, returns="ResolvedPos",
          raises={"ValueError": "pos < 0 or pos > doc.content.size"},
          ensures=["result.pos == pos", "rp_node(result, 0) == doc"],
+         defines=[c.format(d="doc") for c in RSHAPE],
          loops={0: dict(invariant=[
              "0 <= parent_offset", "parent_offset <= node.content.size", "start + parent_offset == pos",
              "len3(path) == 0 ==> node == doc and start == 0",
